@@ -817,6 +817,28 @@ def lang2():
         body = [Let('o', OT, NoneLit(OT)), If(Cmp('>', Y, Lit(0, I64)), [Assign(Var('o', OT), Cast(X, ty))]),
                 Let('r', ty, Coalesce(Var('o', OT), Lit(7, ty))), Return(Cast(Var('r', ty), I64))]
         out.append(Template('lang/optional_coalesce/%s' % ty.name, fn2(body), family='lang'))
+    # optional narrowed by `if x != none`: read of the narrowed parameter / local, assignment to it inside the
+    # narrowed block (the slot keeps its optional layout; the neighbouring local g keeps its value)
+    for ty in (I32, I64, I8):
+        OT = OptT(ty)
+        x, n, g = Var('x', OT), Var('n', ty), Var('g', I64)
+        pick = Func('pick', [('x', OT), ('d', ty)], ty, [If(IsSome(x), [Return(Unwrap(x))]), Return(Var('d', ty))])
+        body = [Let('o', OT, NoneLit(OT)), If(Cmp('>', Y, Lit(0, I64)), [Assign(Var('o', OT), Cast(X, ty))]),
+                Return(Cast(Call('pick', [Var('o', OT), Lit(7, ty)], ty), I64))]
+        out.append(Template('lang/optional_narrow_param/%s' % ty.name, fn2(body, extra=[pick]), family='lang'))
+        upd = Func('upd', [('x', OT), ('n', ty), ('k', I64)], I64,
+                   [Let('g', I64, Var('k', I64)), If(IsSome(x), [Assign(x, n)]), Let('r', ty, Coalesce(x, Lit(5, ty))),
+                    Return(Bin('+', Cast(Var('r', ty), I64), Bin('*', g, Lit(1000, I64))))])
+        body = [Let('o', OT, NoneLit(OT)), If(Cmp('>', Y, Lit(0, I64)), [Assign(Var('o', OT), Cast(X, ty))]),
+                Return(Call('upd', [Var('o', OT), Cast(Y, ty), Lit(3, I64)], I64))]
+        out.append(Template('lang/optional_narrow_assign_param/%s' % ty.name, fn2(body, extra=[upd]), family='lang'))
+        o = Var('o', OT)
+        body = [Let('g', I64, Lit(3, I64)), Let('o', OT, NoneLit(OT)), Let('h', I64, Lit(4, I64)),
+                If(Cmp('>', Y, Lit(0, I64)), [Assign(o, Cast(X, ty))]),
+                Let('r', ty, Lit(1, ty)),
+                If(IsSome(o), [Assign(Var('r', ty), Unwrap(o)), Assign(o, Cast(Y, ty))]),
+                Return(Bin('+', Bin('+', Cast(Var('r', ty), I64), Cast(Coalesce(o, Lit(9, ty)), I64)), Bin('+', Bin('*', g, Lit(1000, I64)), Bin('*', Var('h', I64), Lit(100000, I64)))))]
+        out.append(Template('lang/optional_narrow_local/%s' % ty.name, fn2(body), family='lang'))
     # function literal called twice
     lf = Func('f', [('a', I32), ('b', I32)], I32, [Return(Bin('-', Bin('+', Var('a', I32), Lit(3, I32)), Var('b', I32)))])
     body = [FuncLitLet('f', lf), Let('u', I32, Call('f', [Cast(X, I32), Cast(Y, I32)], I32)), Let('v', I32, Call('f', [Var('u', I32), Lit(1, I32)], I32)), Return(Cast(Var('v', I32), I64))]
